@@ -608,6 +608,9 @@ func (ipv6cp *IPV6CPStateMachine) initializeRestartCount() {
 
 func (ipv6cp *IPV6CPStateMachine) zeroRestartCount() {
 	ipv6cp.restartCount = 0
+	// RFC 1661 zrc: wait one timeout period before proceeding to the final
+	// state; without a running timer the automaton would stay in Stopping
+	ipv6cp.startTimer()
 }
 
 func (ipv6cp *IPV6CPStateMachine) startTimer() {
